@@ -384,6 +384,11 @@ def run_bandit(case, driver):
             tags.append("seed:uniform-%s-at-draw-%d" % ("0" if st == 0 else "max", kk))
     seen = set()
     L = mk_learner(spec)
+    if case.get("safe"):       # the learner as an experiment holds it: inside coba's SafeLearner (keeps a private copy of action lists with 0/1)
+        from coba.safety import SafeLearner
+        L = SafeLearner(L)
+        tags.append("wrapped:SafeLearner")
+    actions = None
     # reference for "the probability with which the current policy selects it": a second learner of the same construction that is
     # taught exactly the same (action, reward) sequence and is only ever asked through fresh action lists that are all kept alive
     shadow = mk_learner(spec)
@@ -414,6 +419,7 @@ def run_bandit(case, driver):
     for k, op in enumerate(case["hist"]):
         if stop:
             break
+        actions = None      # the caller drops its list before it builds the next one (CPython then reuses the address)
         name = op["op"]
         ctx = mk_val(op.get("ctx", ["n", None]))
         if name in ("predict", "scores", "score"):
@@ -454,6 +460,8 @@ def run_bandit(case, driver):
                 cmp.append((len(mhist) - 1, "err", type(e).__name__, "predict #%d" % k))
                 stop = True
                 continue
+            if case.get("safe") and isinstance(out, tuple) and len(out) == 3 and out[2] == {}:
+                out = out[:2]
             ok = isinstance(out, tuple) and len(out) == 2
             a, p = (out if ok else (None, None))
             idx = find_idx(actions, a) if ok else None
@@ -623,6 +631,25 @@ def run_bandit(case, driver):
                 d = "model raises %s, implementation returned %r" % (mo["err"], val)
             elif kind == "pred":
                 mi, mp = mo["pred"][0], unq(mo["pred"][1])
+                if (mi >= len(val[2]) or val[2][mi] != val[2][val[0]]) and lt != "random" and not malformed and pos < len(ans.get("pmfF", [])):
+                    # the model draws with the exact pmf, the implementation with the doubles: when the uniform sits on a cumulative boundary
+                    # (e.g. u = 1/2 exactly) the two can differ; the implementation's choice is then re-derived from the float-faithful pmf
+                    n_draws = sum(1 for p_, k_, _, _ in cmp if k_ == "pred" and p_ <= pos)
+                    st_ = spec["seed"] % M_
+                    for _ in range(n_draws):
+                        st_ = (A_ * st_ + C_) % M_
+                    w_ = [fnum(x) for x in ans["pmfF"][pos]]
+                    r_ = (st_ / M_) * sum(w_)
+                    acc_, exp_i = 0.0, None
+                    for i_, x_ in enumerate(w_):
+                        acc_ = x_ if i_ == 0 else acc_ + x_
+                        if r_ < acc_:
+                            exp_i = i_
+                            break
+                    if exp_i == val[0]:
+                        tags.append("choice:uniform-on-cumulative-boundary")
+                        mi = val[0]
+                        mp = unq(mo["pmf"][mi])
                 if mi >= len(val[2]) or val[2][mi] != val[2][val[0]]:      # compared as actions (an action listed twice has two indexes)
                     d = "chosen index: implementation %d, model %d (model pmf %s)" % (val[0], mi, [float(unq(x)) for x in mo["pmf"]])
                 elif not close(float(mp), val[1]):
@@ -738,12 +765,16 @@ def run_corral(case, driver):
         fails.append(F("A", what, "A:corral-" + sig))
 
     rounds = 0
+    actions = None
     played = []           # (index of the learnt action, probability, reward) of every completed round, for the whole-history tower run
     a_on = driver is not None
     for k, op in enumerate(case["hist"]):
         refs = op["actions"]
         ids = [r[0] for r in refs]
+        actions = None      # the caller drops its list before it builds the next one (CPython then reuses the address)
         actions = [resolve(case, r) for r in refs]
+        if any(type(x) is int and x in (0, 1) for x in actions):
+            tags.append("actions:int-0/1-offered")
         ctx = mk_val(op.get("ctx", ["n", None]))
         tags.append("n:%d" % min(len(actions), 6))
         for r_ in refs:
@@ -1060,11 +1091,13 @@ def run_tower_check(case, driver, played, fails, tags):
             model_bases.append(("leaf", b, r_))
     c = CorralLearner(real_bases, eta=num(case["eta"]), T=corral_T(case), mode=case["mode"], seed=case["seed"])
     top = wrap_mis(c, case.get("mis", []))
+    actions = None
     obs = []
     mhist = []
     for k, (la, lp, r) in enumerate(played):
         op = case["hist"][k]
         ids = [r_[0] for r_ in op["actions"]]
+        ctx["actions"] = actions = None
         actions = [resolve(case, r_) for r_ in op["actions"]]
         ctx["actions"], ctx["ids"] = actions, ids
         cx = mk_val(op.get("ctx", ["n", None]))
@@ -1247,6 +1280,8 @@ def gen_pool(rng, nmax=7):
         cls = rng.sample(list(range(18, 24)), min(k, 6))           # sparse only
     else:
         cls = rng.sample(list(range(len(CATALOG))), k)
+    if rng.chance(0.4):       # the ints 0 and 1 among the actions (SafeLearner rewrites them for its learner and keeps a private copy of the list)
+        cls = [0, 1] + [c_ for c_ in cls if c_ not in (0, 1)][:max(0, nmax - 2)]
     pool = [list(CATALOG[i]) for i in cls]
     if rng.chance(0.35):      # what a real pipeline delivers: every dense / sparse action is one of coba's row objects (alias 0 = the default spelling)
         for c_ in pool:
@@ -1348,6 +1383,8 @@ def gen_bandit(rng, tier, search=False):
     case = {"t": "bandit", "learner": spec, "pool": pool, "hist": hist}
     if rng.chance(0.3):
         case["shared_list"] = True
+    elif rng.chance(0.35):
+        case["safe"] = True
     # malformed stream (outside the quantifier; only model = implementation is compared)
     if not search and rng.chance(0.06):
         case["malformed"] = True
@@ -1425,7 +1462,8 @@ def snippet_bandit(case):
     spec = case["learner"]
     lines = ["import sys, os, math; sys.path.insert(0, os.environ.get('COBA_REPO', '/repo'))",
              "from coba.learners import *", "from coba.learners import MisguidedLearner", SNIPPET_IMPORTS,
-             "L = " + learner_src(spec), "last = None", "A = []   # the caller's action list"]
+             "L = " + learner_src(spec) + ("\nfrom coba.safety import SafeLearner; L = SafeLearner(L)" if case.get("safe") else ""),
+             "last = None", "A = []   # the caller's action list"]
     sh = bool(case.get("shared_list"))
     for op in case["hist"]:
         ctx = py_lit(op.get("ctx", ["n", None]))
@@ -1434,10 +1472,10 @@ def snippet_bandit(case):
             if op.get("as_tuple"):
                 acts = "tuple(%s)" % acts
         if op["op"] == "predict":
-            lines += [("A[:] = %s   # same list object, refilled in place" if sh and not op.get("as_tuple") else "A = %s") % acts, "a, p = L.predict(%s, A); last = a" % ctx,
+            lines += [("A[:] = %s   # same list object, refilled in place" if sh and not op.get("as_tuple") else "del A; A = %s   # a fresh list, the old one dropped first") % acts, "a, p = L.predict(%s, A)[:2]; last = a" % ctx,
                       "print('predict', a, p, 'score of it', L.score(%s, A, a)); assert any(a is x or a == x for x in A) and p > 0" % ctx]
         elif op["op"] == "scores":
-            lines += [("A[:] = %s" if sh else "A = %s") % acts, "v = [L.score(%s, A, x) for x in A]; print('scores', v, sum(v)); assert min(v) >= 0 and abs(sum(v)-1) <= 1e-9" % ctx]
+            lines += [("A[:] = %s" if sh else "del A; A = %s") % acts, "v = [L.score(%s, A, x) for x in A]; print('scores', v, sum(v)); assert min(v) >= 0 and abs(sum(v)-1) <= 1e-9" % ctx]
         elif op["op"] == "score":
             lines += ["print('score', L.score(%s, %s, %s))" % (ctx, acts, py_lit(case["pool"][op["a"][0]][op["a"][1]]))]
         elif op["op"] == "learn":
@@ -1456,7 +1494,7 @@ def snippet_corral(case):
     for k, op in enumerate(case["hist"]):
         ctx = py_lit(op.get("ctx", ["n", None]))
         acts = "[" + ", ".join(py_lit(case["pool"][r[0]][r[1]]) for r in op["actions"]) + "]"
-        lines.append("A = %s" % acts)
+        lines.append(("del A; " if k else "") + "A = %s   # a fresh list every round, the old one dropped first" % acts)
         if op.get("score") is not None:
             lines.append("print('score', top.score(%s, A, A[%d]))" % (ctx, op["score"] % len(op["actions"])))
         lines.append("pb = list(c._p_bars); a, p, info = top.predict(%s, A); ba = info['info'][0]" % ctx)
@@ -1484,7 +1522,8 @@ class C16(Property):
             "strings, dense lists/tuples, sparse dicts, with ==-equal aliases such as 1/1.0/True and [1,2]/(1,2), and every dense/sparse action also as one of "
             "coba's own row objects LazyDense (eager and callable), HeadDense, EncodeDense, KeepDense, LabelDense.feats (DropOne), HashableDense, LazySparse, "
             "HeadSparse, EncodeSparse, DropSparse, HashableSparse or a MappingProxyType / OrderedDict / UserDict; in 35% of the pools the row object is the default "
-            "spelling), action sets stable or changing per call "
+            "spelling; 40% of the pools contain the ints 0 and 1), every call gets a fresh list whose predecessor was dropped first (or, 30%, one list refilled in "
+            "place); 25% of the bandit learners are held inside coba's SafeLearner; action sets stable or changing per call "
             "(never-seen and disappearing actions), rewards 0/1/dyadic/extreme, epsilon in {0,1,1e-9,.05,...}, seeds incl. those whose k-th uniform is 0 or 1-2^-30; "
             "30% Corral histories (1-60 predict+learn rounds over 1-5 such base learners, eta in [0.01,50], T in {inf,1.5,2,2.5,3,10,100,1000}, both modes, "
             "on-policy / least-likely-action / logged (probabilities down to 1e-12) feedback, 5 s limit per learn; 35% of them with 1-2 base learners that "
